@@ -44,13 +44,13 @@ static char *read_file(const char *path, size_t *len) {
 static char envnames[8][64]; static unsigned nenv;
 static void clear_case_env(void) { for (unsigned i = 0; i < nenv; i++) unsetenv(envnames[i]); nenv = 0; }
 
-/* discovery-tuning environment variables (documented in doc/hwloc.doxy "Environment Variables"): name, values, a substring of the
+/* discovery-tuning environment variables DOCUMENTED in doc/hwloc.doxy "Environment Variables" (the undocumented debugging knobs
+ * HWLOC_DEBUG_SORT_CHILDREN, HWLOC_KNL_NUMA_QUIRK, HWLOC_KNL_HDH_FALLBACK are deliberately not used: the property quantifies over
+ * sources, filters and flags, and a debugging knob may legitimately produce anything): name, values, a substring of the
  * snapshot names they are meant for (NULL = any), the object types they add / remove (targets of the type filters of the case) */
 struct envvar { const char *name; const char *values[6]; const char *only; const char *types; };
 static const struct envvar ENVVARS[] = {
   { "HWLOC_KNL_MSCACHE_L3", {"0", "1"}, "KNL", "\x0f\x07\x0d" },          /* MemCache(15) L3(7) Group(13) */
-  { "HWLOC_KNL_NUMA_QUIRK", {"0", "1"}, "KNL", "\x0f\x07\x0d" },
-  { "HWLOC_KNL_HDH_FALLBACK", {"0", "1", "-1"}, "KNL", "\x0f\x07\x0d" },
   { "HWLOC_KEEP_NVIDIA_GPU_NUMA_NODES", {"0", "1"}, "nvidia", "\x0d\x01" },
   { "HWLOC_DONT_MERGE_CLUSTER_GROUPS", {"1", "0"}, NULL, "\x0d\x06\x03" },
   { "HWLOC_USE_NUMA_DISTANCES", {"0", "1", "2", "3", "7"}, NULL, "\x0d\x01" },
@@ -62,7 +62,6 @@ static const struct envvar ENVVARS[] = {
   { "HWLOC_NO_HARDWIRED_TOPOLOGY", {"1"}, NULL, "\x01\x0d" },
   { "HWLOC_MEMTIERS_GUESS", {"none", "default", "all"}, NULL, "\x0f" },
   { "HWLOC_MEMTIERS", {"none", "0x1=HBM;0x2=DRAM"}, NULL, "\x0f" },
-  { "HWLOC_DEBUG_SORT_CHILDREN", {"1"}, NULL, "\x0d\x01" },
   { "HWLOC_ALLOW", {"all"}, NULL, "\x01" },
   { "HWLOC_X86_TOPOEXT_NUMANODES", {"1"}, NULL, "\x0d\x01\x02" },
   { "HWLOC_VIRTUAL_LINUX_OSDEV", {"1"}, NULL, "\x12\x10" },
